@@ -39,6 +39,40 @@ func litOf(c *Case) (Lit, bool) {
 	return l, found
 }
 
+// all literals of a case, in statement order, and the right-hand sides of all `var x = …` lines
+func litsOfAll(c *Case) []Lit {
+	var ls []Lit
+	walkCase(c, &termVisitor{item: func(it SItem) {
+		if x, ok := it.(Lit); ok {
+			ls = append(ls, x)
+		}
+	}})
+	return ls
+}
+
+func exprsOf(out string) []string {
+	var es []string
+	for _, line := range strings.Split(out, "\n") {
+		if strings.HasPrefix(line, "var x = ") {
+			es = append(es, strings.TrimPrefix(line, "var x = "))
+		}
+	}
+	return es
+}
+
+// several literals in ONE file, one `var x = <lit>` statement each (what a literal renders as must
+// not depend on the literals rendered before it with the same File)
+func litSeqCase(id string, ls []Lit) *Case {
+	c := &Case{ID: id}
+	c.Ops = append(c.Ops, Op{Kind: OpFile, F: 0, Str: []string{"new", "", "p"}})
+	c.Ops = append(c.Ops, Op{Kind: OpSet, F: 0, Str: []string{"noformat", "1"}})
+	for _, l := range ls {
+		c.Ops = append(c.Ops, Op{Kind: OpFAdd, F: 0, Args: []Arg{st(kw("Var"), id2("x"), op("="), l)}})
+	}
+	c.Ops = append(c.Ops, Op{Kind: OpRender, F: 0})
+	return c
+}
+
 func exprOf(out string) (string, bool) {
 	i := strings.Index(out, "var x = ")
 	if i < 0 {
@@ -185,7 +219,7 @@ func oracleC11(cx *CheckCtx, runs []*CaseRun) []Finding {
 	// every text handed to the model for a finite value has G-shape
 	nG := 0
 	for _, cr := range runs {
-		if l, ok := litOf(cr.Case); ok {
+		for _, l := range litsOfAll(cr.Case) {
 			switch l.Type {
 			case "f64", "f32", "c128", "c64":
 				for _, t := range l.V {
@@ -201,10 +235,22 @@ func oracleC11(cx *CheckCtx, runs []*CaseRun) []Finding {
 	pkg := types.NewPackage("p", "p")
 	fset := token.NewFileSet()
 	for _, cr := range runs {
-		l, ok := litOf(cr.Case)
-		if !ok || len(cr.Real) == 0 {
+		lits := litsOfAll(cr.Case)
+		if len(lits) == 0 || len(cr.Real) == 0 {
 			continue
 		}
+		var exprs []string
+		if cr.Real[0].Class == "ok" {
+			exprs = exprsOf(cr.Real[0].Out)
+			if len(exprs) != len(lits) {
+				fs = append(fs, Finding{Property: "C11", Shape: "lit-count", What: fmt.Sprintf("%d literals built, %d `var x = …` lines rendered", len(lits), len(exprs)), Case: cr.Case.Text(), Observed: trunc(cr.Real[0].Out)})
+				continue
+			}
+		}
+		if len(lits) > 1 {
+			cx.hist(fmt.Sprintf("literals-in-one-file:%d", len(lits)))
+		}
+		for li, l := range lits {
 		cx.Stats.OracleCases++
 		cx.hist("type:" + l.Type)
 		fail := func(what, shape string, obs string) {
@@ -214,10 +260,7 @@ func oracleC11(cx *CheckCtx, runs []*CaseRun) []Finding {
 			fail("render failed: "+cr.Real[0].Class, "lit-render-"+cr.Real[0].Class, cr.Real[0].Err)
 			continue
 		}
-		expr, ok := exprOf(cr.Real[0].Out)
-		if !ok {
-			continue
-		}
+		expr := exprs[li]
 		tv, err := types.Eval(fset, pkg, token.NoPos, expr)
 		if err != nil {
 			fail("rendered expression does not type-check: "+err.Error(), "lit-invalid-expression", expr)
@@ -262,6 +305,7 @@ func oracleC11(cx *CheckCtx, runs []*CaseRun) []Finding {
 		}
 		if !okv {
 			fail(fmt.Sprintf("value is %s, want %s", got.ExactString(), want.ExactString()), "lit-wrong-value", expr)
+		}
 		}
 	}
 	return fs
@@ -339,22 +383,40 @@ func genStrCases(cx *CheckCtx) []*Case {
 func oracleC12(cx *CheckCtx, runs []*CaseRun) []Finding {
 	var fs []Finding
 	for _, cr := range runs {
-		l, ok := litOf(cr.Case)
-		if !ok || len(cr.Real) == 0 {
+		lits := litsOfAll(cr.Case)
+		if len(lits) == 0 || len(cr.Real) == 0 {
 			continue
+		}
+		var exprs []string
+		if cr.Real[0].Class == "ok" {
+			exprs = exprsOf(cr.Real[0].Out)
+			if len(exprs) != len(lits) {
+				fs = append(fs, Finding{Property: "C12", Shape: "lit-count", What: fmt.Sprintf("%d literals built, %d `var x = …` lines rendered (a literal leaked a line break or swallowed one)", len(lits), len(exprs)), Case: cr.Case.Text(), Observed: trunc(cr.Real[0].Out)})
+				continue
+			}
+		}
+		if len(lits) > 1 {
+			cx.hist(fmt.Sprintf("literals-in-one-file:%d", len(lits)))
+		}
+		for li, l := range lits {
+		if l.Type == "str" {
+			n := len(l.Val.(string))
+			switch {
+			case n >= 1<<16:
+				cx.hist("string-length:>=64KiB")
+			case n >= 1<<12:
+				cx.hist("string-length:>=4KiB")
+			}
 		}
 		cx.Stats.OracleCases++
 		fail := func(what, shape, obs string) {
-			fs = append(fs, Finding{Property: "C12", Shape: shape, What: fmt.Sprintf("%s literal %q: %s", l.Type, fmt.Sprint(l.V), what), Case: cr.Case.Text(), Observed: obs})
+			fs = append(fs, Finding{Property: "C12", Shape: shape, What: fmt.Sprintf("%s literal %s: %s", l.Type, trunc(fmt.Sprintf("%q", fmt.Sprint(l.V))), what), Case: cr.Case.Text(), Observed: obs})
 		}
 		if cr.Real[0].Class != "ok" {
 			fail("render failed", "lit-render-"+cr.Real[0].Class, cr.Real[0].Err)
 			continue
 		}
-		expr, ok := exprOf(cr.Real[0].Out)
-		if !ok {
-			continue
-		}
+		expr := exprs[li]
 		// one token, nothing leaks: x := <lit>; y  must scan to exactly the expected tokens
 		toks, _, err := codeTokens("x := " + expr + "; y")
 		if n := len(toks); n > 0 && toks[n-1].tok == token.SEMICOLON {
@@ -372,7 +434,7 @@ func oracleC12(cx *CheckCtx, runs []*CaseRun) []Finding {
 			}
 			got, err := strconv.Unquote(toks[2].lit)
 			if err != nil || got != l.Val.(string) {
-				fail(fmt.Sprintf("value reads back as %q", got), "lit-wrong-value", expr)
+				fail(fmt.Sprintf("value reads back as %s", trunc(strconv.Quote(got))), "lit-wrong-value", trunc(expr))
 			}
 		case "rune":
 			if len(toks) != 5 || toks[2].tok != token.CHAR {
@@ -397,6 +459,7 @@ func oracleC12(cx *CheckCtx, runs []*CaseRun) []Finding {
 			if err != nil || byte(v) != l.Val.(byte) {
 				fail(fmt.Sprintf("value reads back as %d", v), "lit-wrong-value", expr)
 			}
+		}
 		}
 	}
 	return fs
